@@ -496,3 +496,121 @@ Print Assumptions C03_kelim_sub_keeps_marks.
 Print Assumptions C03_kelim_keeps_witnesses.
 Print Assumptions C03_kelim_sub_keeps_witnesses.
 (* x-kelim (caches) end ------------------------------------------------------------------------------------------- *)
+
+(* x-arenahist begin ----------------------------------------------------------------------------------------------
+   Histories executed by the ARENA-LEVEL machines (Pwl/ArenaHistory.v: apply_func as the loop of update_node over
+   terminal_indices, AElim.aelim, ACPrune.acompose_prune with the fuels chosen from the arena size) against the
+   structural histories of Pwl/History.v (C03_history_*, C04_history, C05_history speak about those).
+     AInv a t  : the arena holds t at root 0, mirrored links, two child slots, childless terminals, no index twice, no
+                 FeasibleWitness [] state, no terminal cell outside the tree (decidable: ArenaHistory.ainvb); implies the
+                 hypotheses of C03_arena_elim_refines and of C03_arena_compose_prune_refines
+     AInvW a t : AInv without the last clause (all that apply_func and the elimination need)
+     hist_ok   : every step is apply_func or infeasible_elimination, every oracle satisfies mir_ne
+   PARTIAL with respect to the planned capstone: at most ONE pruned composition per history (at any position).  Full
+   statement: the same for every list of AApply / ACompose / AElim steps.  Missing: the published postcondition of
+   acompose_prune does not exclude terminal cells outside the returned tree, which a SECOND composition needs (its
+   loop runs over all terminal cells of the slab); the un-pruned machine is related to ptree only
+   (ArenaHistory.arena_step_compose_partial); congruence of compose_prune for cshape. *)
+From AT Require ArenaHistory ArenaHistoryMore ArenaHistoryRel ArenaHistoryEx ElimShape ElimWne CPruneWne.
+(* the invariant gives the hypotheses of the machines' theorems, and is decidable *)
+Theorem C03_arena_inv_compose_pre : forall a t, ArenaHistory.AInv a t ->
+  cabs (AElimBase.cdepth t) a 0%nat = Some t /\ ACPruneAll.cparents a None t /\ NoDup (ACPruneRefine.cidx t) /\
+  ACPruneAll.cwf t /\ (forall j, In j (ArenaCompose.terminal_keys a) <-> In j (ACPruneAll.cleaves t)) /\
+  (ACPruneAll.cdepth t <= length a)%nat.
+Proof. exact ArenaHistory.AInv_compose_pre. Qed.
+Theorem C03_arena_inv_check : forall a, ArenaHistory.ainvb a = true ->
+  exists t, cabs (S (length a)) a 0 = Some t /\ ArenaHistory.AInv a t.
+Proof. exact ArenaHistory.ainvb_sound. Qed.
+(* one step, index-exact operations: the arena returned holds the very tree of the structural step *)
+Theorem C03_arena_history_step : forall alloc tol o x a t t1, AElimBase.mir_ne o -> ArenaHistory.exact_op x = true ->
+  ArenaHistory.AInv a t -> step tol o (ArenaHistory.op_of x) t = HOk t1 ->
+  exists a', ArenaHistory.arena_step alloc tol o x a = Some a' /\ ArenaHistory.AInv a' t1.
+Proof. exact ArenaHistory.arena_step_refines_exact. Qed.
+(* one step, the pruned composition: terminates with the fuels of arena_step, weak invariant re-established, result
+   equal to the structural one up to the indices of the fresh nodes, old decisions framed *)
+Theorem C03_arena_history_step_compose_prune : forall alloc tol o L a t t1,
+  ArenaCompose.fresh_alloc alloc -> ACPruneAll.lp_index_free o -> L <> U ->
+  ArenaHistory.AInv a t -> step tol o (OCompose true L) t = HOk t1 ->
+  exists a' t',
+    ArenaHistory.arena_step alloc tol o (ArenaHistory.ACompose true L) a = Some a' /\ ArenaHistoryMore.AInvW a' t' /\
+    ACPruneRefine.cshape t' t1 /\ ACPruneAll.cframe t t' /\
+    (forall k, In k (AElimBase.idxs t') -> In k (AElimBase.idxs t) \/ aget a k = None).
+Proof. exact ArenaHistoryMore.arena_step_compose_prune_weak. Qed.
+(* one step after the composition: the relation "equal up to node indices" is carried along *)
+Theorem C03_arena_history_step_rel : forall alloc tol o x a t' t t1, AElimBase.mir_ne o -> ArenaHistory.exact_op x = true ->
+  ArenaHistoryMore.AInvW a t' -> ACPruneRefine.cshape t' t -> step tol o (ArenaHistory.op_of x) t = HOk t1 ->
+  exists a' t1', ArenaHistory.arena_step alloc tol o x a = Some a' /\ ArenaHistoryMore.AInvW a' t1' /\ ACPruneRefine.cshape t1' t1.
+Proof. exact ArenaHistoryRel.arena_step_refines_rel. Qed.
+(* the structural models do not read node indices *)
+Theorem C03_elim_respects_shape : forall o tol t u, ACPruneRefine.cshape t u ->
+  ACPruneRefine.cshape (fst (elim o tol t)) (fst (elim o tol u)) /\ snd (elim o tol t) = snd (elim o tol u).
+Proof. exact ElimShape.elim_cshape. Qed.
+Theorem C03_elim_keeps_wne : forall o tol t, AElimBase.mir_ne o -> AElimBase.wne t -> AElimBase.wne (fst (elim o tol t)).
+Proof. exact ElimWne.elim_wne. Qed.
+Theorem C03_compose_prune_keeps_wne : forall o tol t L, AElimBase.wne t -> AElimBase.wne (fst (compose_prune o tol t L)).
+Proof. exact CPruneWne.compose_prune_wne. Qed.
+(* un-pruned composition, one step (partial: related to the inductive tree only) *)
+Theorem C03_arena_history_step_compose_partial : forall alloc tol o L a t t1,
+  ArenaCompose.fresh_alloc alloc -> L <> U -> ArenaHistory.AInv a t -> step tol o (OCompose false L) t = HOk t1 ->
+  exists a', ArenaHistory.arena_step alloc tol o (ArenaHistory.ACompose false L) a = Some a' /\ ArenaCompose.extends a a' /\
+             ArenaComposeAbs.leaves_empty 2 a' /\ exists F, abs_at F a' 0%nat = Some (erase t1).
+Proof. exact ArenaHistory.arena_step_compose_partial. Qed.
+(* histories of index-exact operations *)
+Theorem C03_arena_history_exact : forall alloc tol ops a0 t0 t, ArenaHistory.hist_ok ops -> ArenaHistory.AInv a0 t0 ->
+  run tol t0 (ArenaHistory.ops_of ops) = HOk t ->
+  exists a, ArenaHistory.arena_run alloc tol ops a0 = Some a /\ ArenaHistory.AInv a t.
+Proof. exact ArenaHistory.arena_run_refines_exact. Qed.
+(* histories  ops1 ; compose::<true>(L) ; ops2 *)
+Theorem C03_arena_history_refines_partial : forall alloc tol ops1 o L ops2 a0 t0 tf,
+  ArenaCompose.fresh_alloc alloc -> ACPruneAll.lp_index_free o -> L <> U ->
+  ArenaHistory.hist_ok ops1 -> ArenaHistory.hist_ok ops2 -> ArenaHistory.AInv a0 t0 ->
+  run tol t0 (ArenaHistory.ops_of ops1 ++ (o, OCompose true L) :: ArenaHistory.ops_of ops2) = HOk tf ->
+  exists a' tf',
+    ArenaHistory.arena_run alloc tol (ops1 ++ (o, ArenaHistory.ACompose true L) :: ops2) a0 = Some a' /\
+    ArenaHistoryMore.AInvW a' tf' /\ cabs (AElimBase.cdepth tf') a' 0%nat = Some tf' /\
+    ACPruneRefine.cshape tf' tf /\ (forall x, cev tf' x = cev tf x).
+Proof. exact ArenaHistoryRel.arena_history_refines. Qed.
+Theorem C03_arena_history_value_partial : forall alloc tol ops1 o L ops2 a0 t0 tf,
+  ArenaCompose.fresh_alloc alloc -> ACPruneAll.lp_index_free o -> L <> U ->
+  ArenaHistory.hist_ok ops1 -> ArenaHistory.hist_ok ops2 -> ArenaHistory.AInv a0 t0 ->
+  run tol t0 (ArenaHistory.ops_of ops1 ++ (o, OCompose true L) :: ArenaHistory.ops_of ops2) = HOk tf ->
+  exists a' F tf', ArenaHistory.arena_run alloc tol (ops1 ++ (o, ArenaHistory.ACompose true L) :: ops2) a0 = Some a' /\
+                   cabs F a' 0%nat = Some tf' /\ forall x, cev tf' x = cev tf x.
+Proof. exact ArenaHistoryRel.arena_history_value. Qed.
+(* non-vacuity: the arena of C03_arena_elim_nonvacuous meets AInv; apply_func ; elimination (certified oracle ex_o) ;
+   compose::<true> (y <= 1 ? .. : ..) ; elimination ; apply_func -- both runs computed and compared *)
+Example C03_arena_history_nonvacuous :
+  ArenaHistory.hist_ok ArenaHistoryEx.ahx_ops2 /\
+  match run 0 ex_t (ArenaHistory.ops_of ArenaHistoryEx.ahx_ops ++
+                    (ArenaHistoryEx.ahx_o2, OCompose true ArenaHistoryEx.ahx_L) :: ArenaHistory.ops_of ArenaHistoryEx.ahx_ops2),
+        ArenaHistory.arena_run ArenaCompose.next_key 0
+          (ArenaHistoryEx.ahx_ops ++ (ArenaHistoryEx.ahx_o2, ArenaHistory.ACompose true ArenaHistoryEx.ahx_L) :: ArenaHistoryEx.ahx_ops2)
+          AElimExample.exa_arena with
+  | HOk tf, Some a' => option_map (fun t' => ctree_eqb_shape t' tf) (cabs 8 a' 0%nat) = Some true /\
+                       AElimRefine.arena_okb a' 0 = true /\ (2 < AElimBase.csize tf)%nat
+  | _, _ => False
+  end /\
+  exists a' tf',
+    ArenaHistory.arena_run ArenaCompose.next_key 0
+      (ArenaHistoryEx.ahx_ops ++ (ArenaHistoryEx.ahx_o2, ArenaHistory.ACompose true ArenaHistoryEx.ahx_L) :: ArenaHistoryEx.ahx_ops2)
+      AElimExample.exa_arena = Some a' /\
+    ArenaHistoryMore.AInvW a' tf' /\
+    forall x, Some (cev tf' x) =
+      match run 0 ex_t (ArenaHistory.ops_of ArenaHistoryEx.ahx_ops ++
+                        (ArenaHistoryEx.ahx_o2, OCompose true ArenaHistoryEx.ahx_L) :: ArenaHistory.ops_of ArenaHistoryEx.ahx_ops2) with
+      | HOk tf => Some (cev tf x) | HPanic => None end.
+Proof. exact ArenaHistoryEx.ahx_run_full. Qed.
+Print Assumptions C03_arena_inv_compose_pre.
+Print Assumptions C03_arena_inv_check.
+Print Assumptions C03_arena_history_step.
+Print Assumptions C03_arena_history_step_compose_prune.
+Print Assumptions C03_arena_history_step_rel.
+Print Assumptions C03_elim_respects_shape.
+Print Assumptions C03_elim_keeps_wne.
+Print Assumptions C03_compose_prune_keeps_wne.
+Print Assumptions C03_arena_history_step_compose_partial.
+Print Assumptions C03_arena_history_exact.
+Print Assumptions C03_arena_history_refines_partial.
+Print Assumptions C03_arena_history_value_partial.
+Print Assumptions C03_arena_history_nonvacuous.
+(* x-arenahist end ------------------------------------------------------------------------------------------------ *)
